@@ -588,7 +588,7 @@ theorem lddw_toList (i : Insn) (imm : BitVec 64) :
   simp [lineText, opsText, tailText, toString, String.toList_append, reg_toList, fmtHex_toList,
     comma_toList, regT, imm64T]
 
-theorem good_lddw (i nx : Insn) (hd : i.dst.toNat < 16) (ho : i.opc = 0x18#8) :
+theorem rt_good_lddw (i nx : Insn) (hd : i.dst.toNat < 16) (ho : i.opc = 0x18#8) :
     GoodLine (s!"lddw {Disasm.reg i.dst}, {Disasm.fmtHex (i.imm.setWidth 64 + (nx.imm.signExtend 64 <<< (32 : Nat))).toNat}").toList
       [{ i with src := 0, off := 0 }, { opc := 0, dst := 0, src := 0, off := 0, imm := nx.imm }] true := by
   have hf : AsmSpec.find "lddw".toList = some (.loadImm, 0x18) := by decide +kernel
@@ -650,7 +650,7 @@ theorem entryAt_lddw {p : Bytes} {pc : Nat} {i nx : Insn} (hi : getInsn? p pc = 
     ∃ e, Disasm.entryAt p pc = some (e, 2) ∧
       GoodLine e.desc.toList [{ i with src := 0, off := 0 }, { opc := 0, dst := 0, src := 0, off := 0, imm := nx.imm }] true := by
   refine ⟨_, by simp only [Disasm.entryAt, hi, ho, hn]; rfl, ?_⟩
-  exact good_lddw i nx (getInsn?_regs hi).1 ho
+  exact rt_good_lddw i nx (getInsn?_regs hi).1 ho
 
 theorem entryAt_good {p : Bytes} {pc : Nat} {i : Insn} (hi : getInsn? p pc = some i) (ho : i.opc ≠ 0x18)
     {c} (hc : RtSpec.canonSlot i = some c) :
